@@ -351,3 +351,237 @@ Proof.
           [vm_compute; reflexivity | apply Qcanon.Qc_is_canon; vm_compute; reflexivity]|].
   split; vm_compute; reflexivity.
 Qed.
+
+(* ================================================================================================================== *)
+(* Extension LOOP (C03_Loops_Defs.v / C03_Loops.v): csearch_t::search as written, the outer loops of RQB / FPBA, proximity_t,
+   the Nesterov sequences.  The bundle QP, the function and the bundle operations are ARBITRARY oracles [ask], [serious], ...
+   (every history); [init_status] = Some s is `m_point.m_status = s` at the start of a call (repo 31bf93f, s = max_iters),
+   None is the code before that repair.  fcalls + gcalls is one integer [calls]; an evaluation adds p_cost (2). *)
+From Coq Require Import Lia Lra.
+From LN Require Import C03_Loops_Defs C03_Loops.
+
+(* the constants the model reads from csearch.cpp: status of every exit, the reset value, which bracket end each side moves *)
+Theorem C03_cs_status_codes :
+  src_c03_cs_st_failed = 0%Z /\ src_c03_cs_st_init = 1%Z /\ src_c03_cs_st_converged = 2%Z /\ src_c03_cs_st_null = 3%Z /\
+  src_c03_cs_st_descent = 4%Z /\ src_c03_cs_st_cutting = 5%Z /\ src_c03_cs_descent_moves = 0%Z /\ src_c03_cs_else_moves = 1%Z.
+Proof. exact cs_status_codes. Qed.
+Print Assumptions C03_cs_status_codes.
+
+(* (1) one call of search(): the loop has NO bound other than the evaluation budget -- every pass evaluates exactly once, the last
+   evaluation started below max_evals, and the budget (max_evals - calls passes at most) is never outlasted *)
+Theorem C03_search_budget : forall (Or : Type) (ask : Or -> Q -> Or * cs_ans) P miu M calls o,
+  (1 <= p_cost P)%Z ->
+  let r := cs_search Or ask P miu M calls o in
+  r_fuel_out r = false /\
+  r_calls r = (calls + p_cost P * Z.of_nat (r_passes r))%Z /\
+  ((1 <= r_passes r)%nat -> (r_calls r - p_cost P < M)%Z) /\
+  ((calls < M)%Z -> (1 <= r_passes r)%nat) /\
+  ((M <= calls)%Z -> r_passes r = 0%nat /\ r_assigned r = None).
+Proof. exact search_budget. Qed.
+Print Assumptions C03_search_budget.
+
+(* hence RQB / FPBA terminate (the fuel max_evals - calls is never used up) with fewer than one (RQB) / two (FPBA: the
+   unguarded momentum point) evaluations beyond max_evals: C02's overshoot clause for these solvers *)
+Theorem C03_rqb_budget : forall (Or : Type) ask valid_of prox_of serious nullstep init_status P M (s : ost Or),
+  (1 <= p_cost P)%Z -> cs_params_ok P ->
+  let R := rqb_run Or ask valid_of prox_of serious nullstep init_status P M s in
+  o_exit R <> EFuel /\ (s_calls (o_final R) <= Z.max (s_calls s) (M + (p_cost P - 1)))%Z /\
+  (o_exit R = EBudget -> (M <= s_calls (o_final R))%Z) /\ (o_stale R = true -> o_exit R = EBudget).
+Proof. exact rqb_budget. Qed.
+Print Assumptions C03_rqb_budget.
+
+Theorem C03_fpba_budget : forall (Or : Type) ask valid_of prox_of nullstep momentum init_status P M (s : ost Or),
+  (1 <= p_cost P)%Z -> cs_params_ok P ->
+  let R := fpba_run Or ask valid_of prox_of nullstep momentum init_status P M s in
+  o_exit R <> EFuel /\ (s_calls (o_final R) <= Z.max (s_calls s) (M + (2 * p_cost P - 1)))%Z /\
+  (o_exit R = EBudget -> (M <= s_calls (o_final R))%Z) /\ (o_stale R = true -> o_exit R = EBudget).
+Proof. exact fpba_budget. Qed.
+Print Assumptions C03_fpba_budget.
+
+(* (2) status soundness.  A status ASSIGNED by a call is the verdict of the tests on the last answer read, at the returned t
+   (cs_ret_spec spells out failed / converged / descent_step / cutting_plane_step / null_step with their m1..m4 tests; max_iters is
+   never assigned by a pass); no status is assigned exactly when the loop guard ended the call -- after at least one pass when the
+   call was made under the outer guard (the entry-exhausted path is unreachable from the solvers), with the budget used up *)
+Theorem C03_search_status : forall (Or : Type) (ask : Or -> Q -> Or * cs_ans) P miu M calls o,
+  (1 <= p_cost P)%Z -> cs_params_ok P -> (calls < M)%Z ->
+  let r := cs_search Or ask P miu M calls o in
+  (forall s, r_assigned r = Some s ->
+     exists a tL0 tR0, r_last r = Some a /\ cs_ret_spec P (r_t r) tL0 tR0 a s (r_tL r) (r_tR r)) /\
+  (r_assigned r = None -> (1 <= r_passes r)%nat /\ (M <= r_calls r)%Z).
+Proof. exact search_status. Qed.
+Print Assumptions C03_search_status.
+
+(* that second path exists: one pass that assigns nothing, then the guard *)
+Theorem C03_search_unassigned_path : exists P miu M calls o,
+  (calls < M)%Z /\ cs_params_ok P /\
+  let r := tape_search P miu M calls o in
+  r_assigned r = None /\ r_passes r = 1%nat /\ r_fuel_out r = false /\ tp_short (r_or r) = false.
+Proof. exact search_stale_path. Qed.
+Print Assumptions C03_search_unassigned_path.
+
+(* the repaired code: on that path the solvers see max_iters -- done() does not stop (a valid state), the state value, the bundle
+   (the oracle is the one search() left), the proximity parameter are untouched, nothing is evaluated *)
+Theorem C03_rqb_budget_exit_untouched : forall (Or : Type) ask valid_of prox_of serious nullstep init_status,
+  init_status = Some src_c03_cs_st_init -> forall P M (s : ost Or),
+  let r := cs_search Or ask P (s_miu s) M (s_calls s) (s_or s) in
+  r_assigned r = None ->
+  match rqb_iter Or ask valid_of prox_of serious nullstep init_status P M s with
+  | INext s' u => u = false /\ s_or s' = r_or r /\ s_fx s' = s_fx s /\ s_miu s' = s_miu s /\ s_mstatus s' = src_c03_cs_st_init
+  | IDone s1 z => valid_of (r_or r) = false /\ z = 2%Z /\ s_or s1 = r_or r /\ s_fx s1 = s_fx s
+  end.
+Proof. exact rqb_iter_budget_exit. Qed.
+Print Assumptions C03_rqb_budget_exit_untouched.
+
+Theorem C03_fpba_budget_exit_untouched : forall (Or : Type) ask valid_of prox_of nullstep momentum init_status,
+  init_status = Some src_c03_cs_st_init -> forall P M (s : ost Or),
+  let r := cs_search Or ask P (s_miu s) M (s_calls s) (s_or s) in
+  r_assigned r = None ->
+  match fpba_iter Or ask valid_of prox_of nullstep momentum init_status P M s with
+  | INext s' u => u = false /\ s_or s' = r_or r /\ s_fx s' = s_fx s /\ s_miu s' = s_miu s /\ s_calls s' = r_calls r /\ s_mstatus s' = src_c03_cs_st_init
+  | IDone s1 z => valid_of (r_or r) = false /\ z = 2%Z /\ s_or s1 = r_or r /\ s_fx s1 = s_fx s
+  end.
+Proof. exact fpba_iter_budget_exit. Qed.
+Print Assumptions C03_fpba_budget_exit_untouched.
+
+(* every status RQB / FPBA act on was assigned by the search call of the same iteration *)
+Theorem C03_rqb_status_vetted : forall (Or : Type) ask valid_of prox_of serious nullstep init_status P M (s : ost Or),
+  init_status = Some src_c03_cs_st_init ->
+  o_stale (rqb_run Or ask valid_of prox_of serious nullstep init_status P M s) = false.
+Proof. exact rqb_never_stale. Qed.
+Print Assumptions C03_rqb_status_vetted.
+
+Theorem C03_fpba_status_vetted : forall (Or : Type) ask valid_of prox_of nullstep momentum init_status P M (s : ost Or),
+  init_status = Some src_c03_cs_st_init ->
+  o_stale (fpba_run Or ask valid_of prox_of nullstep momentum init_status P M s) = false.
+Proof. exact fpba_never_stale. Qed.
+Print Assumptions C03_fpba_status_vetted.
+
+(* (3) RQB is monotone: a serious step is made only under the m1 test fx - fy >= m1 delta, so with answers that report the current
+   centre value and delta >= 0 (C03_delta_nonneg: the bundle model of a convex objective) the state value never increases --
+   for ANY variant of the status reset as long as no move was made on a status of another call ... *)
+Theorem C03_rqb_monotone : forall (Or : Type) ask valid_of prox_of serious nullstep init_status (I : Or -> Q -> Prop) P M (s : ost Or),
+  (forall o v mt, I o v -> I (fst (ask o mt)) v /\ (a_fx (snd (ask o mt)) == v /\ 0 <= a_delta (snd (ask o mt)))) ->
+  (forall o v w, I o v -> I (serious o w) w) -> (forall o v, I o v -> I (nullstep o) v) ->
+  (1 <= p_cost P)%Z -> cs_params_ok P -> 0 <= p_m1 P -> I (s_or s) (s_fx s) ->
+  let R := rqb_run Or ask valid_of prox_of serious nullstep init_status P M s in
+  o_stale R = false -> s_fx (o_final R) <= s_fx s.
+Proof. exact rqb_monotone. Qed.
+Print Assumptions C03_rqb_monotone.
+
+(* ... which is every run of the repaired code *)
+Theorem C03_rqb_monotone_repaired : forall (Or : Type) ask valid_of prox_of serious nullstep init_status (I : Or -> Q -> Prop) P M (s : ost Or),
+  init_status = Some src_c03_cs_st_init ->
+  (forall o v mt, I o v -> I (fst (ask o mt)) v /\ (a_fx (snd (ask o mt)) == v /\ 0 <= a_delta (snd (ask o mt)))) ->
+  (forall o v w, I o v -> I (serious o w) w) -> (forall o v, I o v -> I (nullstep o) v) ->
+  (1 <= p_cost P)%Z -> cs_params_ok P -> 0 <= p_m1 P -> I (s_or s) (s_fx s) ->
+  s_fx (o_final (rqb_run Or ask valid_of prox_of serious nullstep init_status P M s)) <= s_fx s.
+Proof. exact rqb_monotone_repaired. Qed.
+Print Assumptions C03_rqb_monotone_repaired.
+
+(* ... and was FALSE of the code before repo 31bf93f (no reset): descent step 10 -> 9, then a call that rejects its only trial
+   (f = 20), runs out of budget and returns the previous descent_step: RQB moves to 20 *)
+Theorem C03_rqb_monotone_prefix_refuted : exists P M s,
+  cs_params_ok P /\ 0 <= p_m1 P /\ (1 <= p_cost P)%Z /\
+  let R := tape_rqb_prefix P M s in
+  o_exit R = EBudget /\ o_stale R = true /\ tp_short (s_or (o_final R)) = false /\ s_fx s < s_fx (o_final R).
+Proof. exact rqb_monotone_prefix_refuted. Qed.
+Print Assumptions C03_rqb_monotone_prefix_refuted.
+
+(* the hypothesis delta >= 0 of C03_rqb_monotone, for the bundle model under its invariant *)
+Theorem C03_delta_nonneg : forall (f : vec -> Q) (n : nat) b mt, Inv f n b -> 0 < mt -> 0 <= delta mt b.
+Proof. exact delta_nonneg. Qed.
+Print Assumptions C03_delta_nonneg.
+
+(* FPBA: the state is only changed by update_if_better -- for every oracle, every budget, with or without the reset *)
+Theorem C03_fpba_best : forall (Or : Type) ask valid_of prox_of nullstep momentum init_status P M (s : ost Or),
+  s_fx (o_final (fpba_run Or ask valid_of prox_of nullstep momentum init_status P M s)) <= s_fx s.
+Proof. exact fpba_best. Qed.
+Print Assumptions C03_fpba_best.
+
+(* (5) the bracket: at the head of every pass 0 <= tL < t < tR; a new trial (interpolation or extrapolation) is STRICTLY inside the
+   bracket it is computed from, exactly one end of which moved onto the previous trial; on return tL <= t <= tR *)
+Theorem C03_search_trial_inside : forall P t tL tR a t' tL' tR',
+  cs_params_ok P -> cs_inv t tL tR -> cs_pass P t tL tR a = PCont t' tL' tR' ->
+  cs_inv t' tL' tR' /\ a_finite a = true /\
+  ((tL' = t /\ tR' = tR /\ p_m1 P * a_delta a <= a_fx a - a_fy a) \/
+   (tL' = tL /\ tR' = Some t /\ a_fx a - a_fy a < p_m1 P * a_delta a)).
+Proof. exact cs_pass_cont. Qed.
+Print Assumptions C03_search_trial_inside.
+
+Theorem C03_search_bracket : forall (Or : Type) (ask : Or -> Q -> Or * cs_ans) P miu M calls o,
+  cs_params_ok P ->
+  let r := cs_search Or ask P miu M calls o in
+  (forall s, r_assigned r = Some s -> cs_inv_ret (r_t r) (r_tL r) (r_tR r)) /\
+  (r_assigned r = None -> cs_inv (r_t r) (r_tL r) (r_tR r)).
+Proof. exact search_bracket. Qed.
+Print Assumptions C03_search_bracket.
+
+(* (4) proximity_t: miu0 is inside miu0_range; every update keeps miu positive (min_dot_nuv >= 0); the range is NOT kept *)
+Theorem C03_prox_miu0_range : forall eps0 lo hi gx fx, lo <= hi -> lo <= prox_miu0 eps0 lo hi gx fx <= hi.
+Proof. exact prox_miu0_range. Qed.
+Print Assumptions C03_prox_miu0_range.
+
+Theorem C03_prox_update_positive : forall miu mdn t xn xn1 gn gn1 Gn Gn1, 0 < miu -> 0 <= mdn ->
+  0 < prox_update1 miu mdn t xn xn1 gn gn1 /\ 0 < prox_update2 miu mdn t xn xn1 gn gn1 Gn Gn1.
+Proof. intros. split; [apply prox_update1_pos | apply prox_update2_pos]; assumption. Qed.
+Print Assumptions C03_prox_update_positive.
+
+Theorem C03_prox_range_refuted : exists lo hi miu mdn t xn xn1 gn gn1,
+  0 < lo /\ lo <= miu <= hi /\ 0 < mdn /\ hi < prox_update1 miu mdn t xn xn1 gn gn1.
+Proof. exact prox_range_refuted. Qed.
+Print Assumptions C03_prox_range_refuted.
+
+(* (4) Nesterov sequences: with r >= 2 lambda (true of the exact square root of 1 + 4 lambda^2 and of its correctly rounded
+   value) lambda grows by at least 1/2 per update, stays >= 1 through every history of update / reset, and both momentum
+   coefficients are in [0, 1) *)
+Theorem C03_nesterov_witness_exact : forall lambda r, 0 <= lambda -> 0 <= r -> r * r == 1 + 4 * lambda * lambda -> nest_witness_ok lambda r.
+Proof. exact nest_witness_exact. Qed.
+Print Assumptions C03_nesterov_witness_exact.
+
+Theorem C03_nesterov_coefficients : forall two lambda r, 1 <= lambda -> nest_witness_ok lambda r ->
+  lambda + (1 # 2) <= nest_next r /\
+  0 <= nest_alpha lambda (nest_next r) < 1 /\ 0 <= nest_beta two lambda (nest_next r) < 1.
+Proof. intros. split; [apply nest_next_ge | apply nest_coefficients]; assumption. Qed.
+Print Assumptions C03_nesterov_coefficients.
+
+Theorem C03_nesterov_history : forall two evs s, 1 <= n_lambda s -> nest_hist_ok two s evs ->
+  1 <= n_lambda (fold_left (nest_step two) evs s).
+Proof. exact nest_history. Qed.
+Print Assumptions C03_nesterov_history.
+
+(* ---- non-vacuity of the LOOP statements ---- *)
+Example C03_nonvacuous_loop_params : cs_params_ok wP /\ (1 <= p_cost wP)%Z /\ 0 <= p_m1 wP /\ cs_inv 1 0 None.
+Proof. unfold cs_params_ok, cs_inv. simpl. repeat split; try lra; try lia; try (intros r H; discriminate H); vm_compute; discriminate. Qed.
+
+(* a call under the guard that returns descent_step after a rejected trial (two passes, bracket [0, 1] -> t = 3/10) *)
+Example C03_nonvacuous_search :
+  let r := tape_search wP 1 100 2 (mk_tape [w_shrink 10 20; w_descent 10 9] [] [] false) in
+  r_assigned r = Some 4%Z /\ r_passes r = 2%nat /\ r_calls r = 6%Z /\ r_t r == 3 # 10 /\ r_tL r == 3 # 10 /\ r_tR r = Some 1.
+Proof. vm_compute. repeat split; reflexivity. Qed.
+
+(* the repaired loop on the witness history of C03_rqb_monotone_prefix_refuted: the budget exit hands over max_iters, the state stays at 9 *)
+Example C03_nonvacuous_rqb_repaired :
+  let R := tape_rqb wP 6 (mk_ost (mk_tape [w_descent 10 9; w_shrink 9 20] [] [1; 1] false) 2%Z 10 1 0%Z 1 (Some 0)) in
+  o_exit R = EBudget /\ o_stale R = false /\ s_fx (o_final R) == 9 /\ s_mstatus (o_final R) = 1%Z /\ s_calls (o_final R) = 6%Z.
+Proof. vm_compute. repeat split; reflexivity. Qed.
+
+(* an oracle with the hypotheses of C03_rqb_monotone (state = centre value, every trial one below the centre, delta = 1) *)
+Example C03_nonvacuous_rqb_monotone :
+  (forall (o v mt : Q), o == v -> fst (ex_ask o mt) == v /\ (a_fx (snd (ex_ask o mt)) == v /\ 0 <= a_delta (snd (ex_ask o mt)))) /\
+  (forall (o v w : Q), o == v -> (fun (_ : Q) (w' : Q) => w') o w == w) /\ (forall (o v : Q), o == v -> (fun o' : Q => o') o == v).
+Proof. exact ex_oracle_ok. Qed.
+
+Example C03_nonvacuous_fpba :
+  let R := tape_fpba wP 8 (mk_ost (mk_tape [w_descent 10 9; w_descent 12 11] [Some 12; Some 8] [1; 1] false) 2%Z 10 1 0%Z 1 (Some 0)) in
+  o_exit R = EBudget /\ s_fx (o_final R) == 8 /\ s_calls (o_final R) = 10%Z /\ tp_short (s_or (o_final R)) = false.
+Proof. vm_compute. repeat split; reflexivity. Qed.
+
+Example C03_nonvacuous_prox :
+  prox_miu0 (1 # 1000) 1 10 [3; 4] 24 == 125000 # 24001 /\ prox_update1 1 0 1 [0] [1] [0] [2] == 2 # 3 /\
+  prox_update2 1 0 1 [0] [1] [0] [2] [0] [4] == 2 # 3.
+Proof. vm_compute. repeat split; reflexivity. Qed.
+
+Example C03_nonvacuous_nesterov :
+  nest_witness_ok 1 (9 # 4) /\ nest_hist_ok true (mk_nest 1 [0] [0]) [NUpdate (9 # 4) [1]; NReset; NUpdate (5 # 2) [2]] /\
+  n_lambda (fold_left (nest_step true) [NUpdate (9 # 4) [1]; NReset; NUpdate (5 # 2) [2]] (mk_nest 1 [0] [0])) == 7 # 4.
+Proof. unfold nest_witness_ok. simpl. repeat split; try exact I; vm_compute; try reflexivity; discriminate. Qed.
